@@ -25,9 +25,9 @@ Init ==
        /\ lref = (IF tl THEN {T} ELSE {}) \cup ol
        /\ tref = {<<m, T>> : m \in tt} \cup {<<m, o>> : m \in remotes, o \in ot}
   /\ cexc = lref /\ cidx = lref
-  /\ conf = {"git-bug.identity", "git-bug.bridge.x.target", "user.name"}
+  /\ \E gb \in SUBSET {"git-bug.identity", "git-bug.bridge.x.target"} : conf = gb \cup {"user.name"}   \* any git-bug configuration, also none
   /\ done = <<>>
-  /\ c0 = [lref |-> lref, tref |-> tref]
+  /\ c0 = [lref |-> lref, tref |-> tref, conf |-> conf]
 
 (* entity-level removal: local ref and the tracking ref under every configured remote *)
 RemoveEntity(e) ==
@@ -81,5 +81,5 @@ StaysRemoved == (done # <<>> /\ done[1] \in {"entity", "cache"}) => T \notin Aft
 
 SetSeq(S) == SetToSeq(S)
 Emit == Len(done) = 1 =>
-  PrintT(ToJson([via |-> done[1], remotes |-> SetSeq(remotes), before |-> [lref |-> SetSeq(c0.lref), tref |-> SetSeq(c0.tref)], after |-> [lref |-> SetSeq(lref), tref |-> SetSeq(tref), cexc |-> SetSeq(cexc), merged |-> SetSeq(AfterMerge(cexc, tref))]]))
+  PrintT(ToJson([via |-> done[1], remotes |-> SetSeq(remotes), before |-> [lref |-> SetSeq(c0.lref), tref |-> SetSeq(c0.tref), conf |-> SetSeq(c0.conf)], after |-> [lref |-> SetSeq(lref), tref |-> SetSeq(tref), cexc |-> SetSeq(cexc), merged |-> SetSeq(AfterMerge(cexc, tref))]]))
 =============================================================================
